@@ -65,11 +65,19 @@ class Variant:
     def __init__(self, vid, kind, op, cands, underscore=False, ptr=True, decl_first=False):
         # cands: list of (cid, style, ptypes) in LISTING order
         self.vid, self.kind, self.op = vid, kind, op
-        self.us = underscore
         self.ptr = ptr
         self.decl_first = decl_first
-        self.name = op if kind == "op" else ("ov_" + vid if underscore else "ov" + vid)
+        # underscore: False | True ("ov_<vid>") | "type" (the text before the first '_' names a type of the package:
+        # gogen's checkTypeMethod must still take the constant for a FUNCTION overload, which only the "__" separator
+        # of cl's overloadName guarantees)
+        if kind == "op":
+            self.name = op
+        elif underscore == "type" and kind == "func":
+            self.name = "TT_" + vid
+        else:
+            self.name = "ov_" + vid if underscore else "ov" + vid
         self.recv = None if kind == "func" else ("R_" + vid if underscore else "R" + vid)
+        self.us = "typeprefix" if (underscore == "type" and kind == "func") else ("us" if underscore else "plain")
         self.cands = []
         for cid, style, pt in cands:
             cname = None
@@ -154,7 +162,7 @@ class Variant:
                           cs, calls, ",".join(hx(t) for t in known_types)])
 
     def shape(self):
-        return "%s/%s/%s" % (self.kind, "".join(c["style"] for c in self.cands), "us" if self.us else "plain")
+        return "%s/%s/%s" % (self.kind, "".join(c["style"] for c in self.cands), self.us)
 
 
 GROUP_HEAD = '''package %s
@@ -253,7 +261,7 @@ def run(ctx):
         idx = list(range(len(cands)))
         for pi, perm in enumerate(itertools.permutations(idx)):
             listing = [(cid, cands[cid][0], cands[cid][1]) for cid in perm]
-            variants.append(Variant("s%dp%d" % (si, pi), kind, op, listing, underscore=(pi % 3 == 1), ptr=(pi % 2 == 0),
+            variants.append(Variant("s%dp%d" % (si, pi), kind, op, listing, underscore=("type" if pi % 6 == 4 or (pi == 0 and si % 3 == 1) else pi % 3 == 1), ptr=(pi % 2 == 0),
                                     decl_first=(pi % 4 >= 2)))
     nexh = len(variants)
     for i in range(ctx.n(40, 2000)):
@@ -283,7 +291,7 @@ def run(ctx):
             elif kind == "method":
                 st = "M"
             listing.append((cid, st, pt))
-        variants.append(Variant("r%d" % i, kind, op, listing, underscore=ctx.rng.below(3) == 0, ptr=ctx.rng.below(2) == 0,
+        variants.append(Variant("r%d" % i, kind, op, listing, underscore=[False, False, True, "type"][ctx.rng.below(4)], ptr=ctx.rng.below(2) == 0,
                                 decl_first=ctx.rng.below(2) == 0))
     groups = [variants[i:i + 25] for i in range(0, len(variants), 25)]
     cases = [{"pkg": "g%d" % gi, "src": group_source("g%d" % gi, g)} for gi, g in enumerate(groups)]
@@ -444,7 +452,7 @@ func main() {
     ctx.cover(evaluations=ncalls + len(variants), distinct_nontrivial=len(set(v.source() for v in variants)),
               samples=[{"variant": kc[i], "impl": ki[i], "model": km[i]} for i in (0, len(kc) // 2, len(kc) - 1)],
               rule="every permutation of %d base overload sets (%d variants: funcs, methods, operators; literal/named/method/mixed "
-                   "styles; names with and without '_'; declaration before/after the candidates; pointer/value receivers) + %d seeded "
+                   "styles; names with and without '_', also '_' names whose prefix is a type of the package; declaration before/after the candidates; pointer/value receivers) + %d seeded "
                    "sets (2..4 candidates drawn from 13 signatures / 7 operator signatures, seeded order and style), compiled in "
                    "groups of 25 by cl.NewPackage, one go build, one run; evaluations = variants compared (constant, function "
                    "names) + calls executed (%d, one per candidate, typed arguments); non-trivial = distinct variant source; "
